@@ -2,17 +2,28 @@ package main
 
 import (
 	"bufio"
+	"bytes"
 	"encoding/json"
 	"flag"
 	"fmt"
 	"math/rand"
 	"net/http"
+	"net/http/httptest"
 	"os"
 	"sort"
 	"sync"
 
+	"github.com/rs/zerolog"
+	admissionv1 "k8s.io/api/admission/v1"
+	metav1 "k8s.io/apimachinery/pkg/apis/meta/v1"
+	"k8s.io/apimachinery/pkg/runtime"
+	"k8s.io/apimachinery/pkg/types"
+
 	"github.com/dadrus/heimdall/internal/config"
+	"github.com/dadrus/heimdall/internal/handler/fxlcm"
 	rconfig "github.com/dadrus/heimdall/internal/rules/config"
+	"github.com/dadrus/heimdall/internal/rules/provider/kubernetes/admissioncontroller"
+	"github.com/dadrus/heimdall/internal/rules/provider/kubernetes/api/v1alpha4"
 	"github.com/dadrus/heimdall/verifharness/app"
 	"github.com/dadrus/heimdall/verifharness/client"
 	"github.com/dadrus/heimdall/verifharness/scripted"
@@ -58,6 +69,100 @@ type c14Obs struct {
 	ExecFail   []string `json:"exec_fail"`
 	Bt         bool     `json:"bt"`
 	PositiveOK bool     `json:"positive_ok"`
+	// Admit: the answers of the Kubernetes validating admission webhook of the same service (same rule
+	// factory) for rule sets made of this rule
+	Admit c14Admission `json:"admit"`
+}
+
+// c14Verdict is one AdmissionReview answer.
+type c14Verdict struct {
+	HTTP    int  `json:"http"`
+	Allowed bool `json:"allowed"`
+	Code    int  `json:"code"`
+	Causes  int  `json:"causes"`
+	UID     bool `json:"uid"` // the answer names the request it belongs to
+}
+
+type c14Admission struct {
+	Own   c14Verdict `json:"own"`   // [rule], the service's own authClassName
+	Other c14Verdict `json:"other"` // [rule], another authClassName
+	Trio  c14Verdict `json:"trio"`  // [a valid rule, rule, rule under another id], own class
+}
+
+const c14AuthClass = "verif-class"
+
+// c14Webhook returns the handler of the admission controller built over the service's rule factory. The
+// controller is a server wrapped for the lifecycle; its handler is called directly (no listener, no TLS).
+func c14Webhook(a *app.App) (http.Handler, error) {
+	ctrl := admissioncontroller.New(&config.TLS{}, zerolog.Nop(), c14AuthClass, a.RuleFactory)
+
+	lm, ok := ctrl.(*fxlcm.LifecycleManager)
+	if !ok {
+		return nil, fmt.Errorf("admission controller is not a managed server: %T", ctrl)
+	}
+
+	srv, ok := lm.Server.(*http.Server)
+	if !ok || srv.Handler == nil {
+		return nil, fmt.Errorf("admission controller's server has no handler: %T", lm.Server)
+	}
+
+	return srv.Handler, nil
+}
+
+func c14Review(h http.Handler, uid, class string, rules []rconfig.Rule) (c14Verdict, error) {
+	rs := v1alpha4.RuleSet{
+		TypeMeta:   metav1.TypeMeta{APIVersion: "heimdall.dadrus.github.com/v1alpha4", Kind: "RuleSet"},
+		ObjectMeta: metav1.ObjectMeta{Name: "r", Namespace: "verif", UID: types.UID("obj-" + uid)},
+		Spec:       v1alpha4.RuleSetSpec{AuthClassName: class, Rules: rules},
+	}
+
+	raw, err := json.Marshal(&rs)
+	if err != nil {
+		return c14Verdict{}, err
+	}
+
+	review := admissionv1.AdmissionReview{
+		TypeMeta: metav1.TypeMeta{APIVersion: "admission.k8s.io/v1", Kind: "AdmissionReview"},
+		Request: &admissionv1.AdmissionRequest{
+			UID:       types.UID(uid),
+			Kind:      metav1.GroupVersionKind{Group: "heimdall.dadrus.github.com", Version: "v1alpha4", Kind: "RuleSet"},
+			Resource:  metav1.GroupVersionResource{Group: "heimdall.dadrus.github.com", Version: "v1alpha4", Resource: "rulesets"},
+			Name:      "r",
+			Namespace: "verif",
+			Operation: admissionv1.Create,
+			Object:    runtime.RawExtension{Raw: raw},
+		},
+	}
+
+	body, err := json.Marshal(&review)
+	if err != nil {
+		return c14Verdict{}, err
+	}
+
+	req := httptest.NewRequest(http.MethodPost, "/validate-ruleset?timeout=5s", bytes.NewReader(body))
+	req.Header.Set("Content-Type", "application/json")
+
+	rw := httptest.NewRecorder()
+	h.ServeHTTP(rw, req)
+
+	v := c14Verdict{HTTP: rw.Code}
+
+	var answer admissionv1.AdmissionReview
+	if err := json.Unmarshal(rw.Body.Bytes(), &answer); err != nil || answer.Response == nil {
+		return v, nil //nolint:nilerr // no review in the answer: the zero verdict with the HTTP code says so
+	}
+
+	v.Allowed = answer.Response.Allowed
+	v.UID = string(answer.Response.UID) == uid
+
+	if answer.Response.Result != nil {
+		v.Code = int(answer.Response.Result.Code)
+		if answer.Response.Result.Details != nil {
+			v.Causes = len(answer.Response.Result.Details.Causes)
+		}
+	}
+
+	return v, nil
 }
 
 type c14Case struct {
@@ -397,6 +502,11 @@ func c14RunGroup(cases []c14Case, idxs []int, up *client.Upstream, w *trace.Writ
 	cl := client.New(a, up)
 	defer cl.Close()
 
+	hook, err := c14Webhook(a)
+	if err != nil {
+		return err
+	}
+
 	for n, i := range idxs {
 		c := &cases[i]
 		prefix := fmt.Sprintf("/c%d", n+1)
@@ -492,6 +602,22 @@ func c14RunGroup(cases []c14Case, idxs []int, up *client.Upstream, w *trace.Writ
 			rec.Take(id)
 
 			obs.Bt = o.PipelineHeader(a.Mode, "X-Rule") == "fb"
+		}
+
+		// the admission webhook sees the same rule before it would ever be loaded
+		other := rc
+		other.ID = rc.ID + "-again"
+
+		if obs.Admit.Own, err = c14Review(hook, c.ID+"-own", c14AuthClass, []rconfig.Rule{rc}); err != nil {
+			return err
+		}
+
+		if obs.Admit.Other, err = c14Review(hook, c.ID+"-other", "another-class", []rconfig.Rule{rc}); err != nil {
+			return err
+		}
+
+		if obs.Admit.Trio, err = c14Review(hook, c.ID+"-trio", c14AuthClass, []rconfig.Rule{fb, rc, other}); err != nil {
+			return err
 		}
 
 		c.Obs = obs
